@@ -20,7 +20,7 @@ from typing import List
 
 from .effects import DECLARED_DEFAULT, INTERIOR, TOP, UT, check_param_not_mutated, get_effects
 from .report import Ctx
-from .shared_rules import check_global_state_restore
+from .shared_rules import check_global_state_restore, check_recreate_branches
 from .srcmodel import call_leaf, calls_in, contains, dotted, src, walk_local
 from .util import enclosing_trys, root_name
 
@@ -103,24 +103,7 @@ def run(ctx: Ctx) -> int:
     ctx.extra["under_tuple_observations"] = observations
 
     # the copy primitives the summaries rely on really copy namespaces, dicts and lists (not tuples / sets)
-    rb = ctx.func("_namespace:recreate_branches")
-    kinds = set()
-    for n_ in walk_local(rb):
-        if isinstance(n_, ast.If):
-            for c_ in [x for x in ast.walk(n_.test) if isinstance(x, ast.Call) and call_leaf(x) == "isinstance" and root_name(x.args[0]) == "data"]:
-                pos_types = [dotted(e) for e in (c_.args[1].elts if isinstance(c_.args[1], ast.Tuple) else [c_.args[1]])]
-                # is the test negated for this kind (e.g. `and not isinstance(data, OrderedDict)`)?
-                negated = any(isinstance(u, ast.UnaryOp) and isinstance(u.op, ast.Not) and u.operand is c_ for u in ast.walk(n_.test))
-                if negated:
-                    continue
-                body_txt = " ".join(ast.unparse(b) for b in n_.body)
-                fresh = ("type(data)()" in body_txt and "recreate_branches(val" in body_txt) or ("[recreate_branches(v" in body_txt)
-                assigns_new = any(isinstance(b, ast.Assign) and root_name(b.targets[0]) == "new_data" for b in n_.body)
-                if fresh and assigns_new:
-                    kinds |= set(pos_types)
-    rets = [r for r in walk_local(rb) if isinstance(r, ast.Return)]
-    ok = {"Namespace", "dict", "list"} <= kinds and all(root_name(r.value) == "new_data" for r in rets)
-    ctx.oblige("C08.a", ok, rb, f"recreate_branches rebuilds {sorted(kinds)} recursively (the copy model of the effect analysis)" if ok else f"recreate_branches no longer copies all of Namespace, dict and list (copies {sorted(kinds)}): clone()/strip_meta() hand out shared containers", fn=rb, construct="recreate_branches copy kinds")
+    kinds = check_recreate_branches(ctx, "C08.a")
     ctx.extra["copy_model"] = {"recreate_branches_copies": sorted(kinds), "stops_at": "tuple, set, OrderedDict and other objects"}
     cl = ctx.func("_namespace:Namespace.clone")
     ok = any(isinstance(r.value, ast.Call) and call_leaf(r.value) == "recreate_branches" and root_name(r.value.args[0]) == "self" for r in walk_local(cl) if isinstance(r, ast.Return))
